@@ -56,12 +56,16 @@ FCONSTS = {"FLH": Fraction(3, 2)}
 CLI_DEFS = "CLIA,CLIB=5"                 # passed as -D
 USYMS = ["U0", "U1", "U2", "U3"]         # defined in the preamble, value 240+j, referenced only by "use" leaves
 UNDEF = ["NIX", "NIXB"]                  # never defined
-FILES_PRESENT = {"here.inc": " \n", "incd/deep.inc": " \n"}   # incd is given with -i
+FILES_PRESENT = {"here.inc": " \n", "incd/deep.inc": " \n",   # incd is given with -i
+                 "sub/sib.inc": " \n"}                          # next to the include files that live in sub/
 # IFEXIST operand forms: (text, exists)
 EXIST_FORMS = [("here.inc", True), ("\"here.inc\"", True), ("here", True), ("\"here\"", True),
                ("deep", True), ("\"deep.inc\"", True), ("incd/deep.inc", True),
                ("gone.inc", False), ("\"gone\"", False), ("gone", False), ("incd/gone.inc", False),
-               ("here.xyz", False)]
+               ("here.xyz", False),
+               # "primarily tries to open the file in the directory containing the source file with the statement":
+               # a neighbour of the include files in sub/ exists only for statements standing in such a file
+               ("sib.inc", "in-sub"), ("\"sib\"", "in-sub"), ("sib", "in-sub")]
 POISON = [
     "\terror \"poison\"", "\tfatal \"poison\"", "\twarning \"poison\"", "\txyzzy 1,2", "\torg 3",
     "\tcpu nosuchcpu", "\tend", "\tinclude \"gone.inc\"", "K1\tequ 99", "\t{db} 1,2,3",
@@ -231,6 +235,7 @@ class Walker:
         self.args = None              # macro arguments of the running expansion
         self.live = set()             # leaf ids that were assembled at least once
         self.in_rept = 0
+        self.in_sub = 0
         self.mdef = None              # marker of the LM<item> macro definition that took effect
         self.lc = 0
         self.ninc = 0
@@ -305,7 +310,11 @@ class Walker:
         if k == "used":
             return (c["s"].upper() in self.used) != neg
         if k == "ex":
-            return EXIST_FORMS[c["f"]][1] != neg
+            ex = EXIST_FORMS[c["f"]][1]
+            if ex == "in-sub":
+                ex = bool(self.in_sub)
+                self.stats["kinds"].add("exist-relative-to-include-dir" if ex else "exist-not-from-main-dir")
+            return ex != neg
         if k == "b":
             vals = []
             for a in c["a"]:
@@ -483,7 +492,16 @@ class Walker:
         self.ninc += 1
         name = "i%d.inc" % self.ninc
         form = (self.style + self.ninc) % 3
-        self.stmt("include", [name, '"%s"' % name, name[:-4]][form])
+        # every other include file lives in the directory sub/; an include file that is included from there lives
+        # there too and is named relative to it
+        save_sub = self.in_sub
+        ref = name
+        if self.in_sub:
+            name = "sub/" + name
+        elif (self.style + self.ninc) % 2:
+            name = ref = "sub/" + name
+            self.in_sub = 1
+        self.stmt("include", [ref, '"%s"' % ref, ref[:-4]][form])
         save = (self.cur, self.cur_name, self.stack)
         save_rept = self.in_rept
         if self.render:
@@ -495,6 +513,7 @@ class Walker:
             self.walk(n["b"], active, depth)
         finally:
             self.in_rept = save_rept
+            self.in_sub = save_sub
             if self.render:
                 self.files[name] = "\n".join(l["text"] for l in self.cur) + "\n"
                 self.cur, self.cur_name, self.stack = save
